@@ -105,7 +105,7 @@ Definition v_vmsg (m : vmsg) : val :=
 (* harness kind 3: validate_message(try_parse(bytes), is_ebgp) on one buffer *)
 Definition v_validate (p : profile) (cd : codec) (is_ebgp : bool) (bytes : list N) : val :=
   match try_parse no_other p cd bytes with
-  | DNeed => VL [VN 1]
+  | DNeed _ => VL [VN 1]
   | DErr e _ => VL (VN 2 :: v_notif e)
   | DPanic => VL [VI (Zneg 1)]
   | DMsg m _ =>
